@@ -957,3 +957,307 @@ Proof.
   - intros. apply read_poll_no_junk; assumption.
   - intros. apply read_file_no_junk; assumption.
 Qed.
+
+(** ---- what [write] returns ---- *)
+Lemma sum_len_concat l : length (concat l) = sum_len l.
+Proof. induction l as [|s r IH]; [reflexivity|]. cbn [concat sum_len]. rewrite app_length, IH. reflexivity. Qed.
+
+Lemma wb_writes_n_spec grow junk l : forall w t,
+  wb_writes_n grow junk w l t = obind (wb_writes grow junk w l) (fun w' => Ok (w', (t + sum_len l)%nat)).
+Proof.
+  induction l as [|s r IH]; intros w t; cbn [wb_writes_n wb_writes sum_len obind].
+  - rewrite Nat.add_0_r. reflexivity.
+  - unfold wb_write_n. destruct (wb_write grow junk w s) as [w1| |]; cbn [obind fst snd]; try reflexivity.
+    rewrite IH. destruct (wb_writes grow junk w1 r) as [w2| |]; cbn [obind]; try reflexivity.
+    f_equal. f_equal. lia.
+Qed.
+
+(** writeable_counts: the bytes are the appended writes and the counts [write] returned add up
+    to their number *)
+Lemma wb_session_n_spec grow junk c l :
+  grow_ok grow -> wb_session_n grow junk c l = Ok (wctor_init c ++ concat l, length (concat l)).
+Proof.
+  intros G. unfold wb_session_n.
+  destruct (wb_make_inv junk c) as (w & -> & I). cbn [obind].
+  rewrite wb_writes_n_spec.
+  destruct (wb_writes_inv grow junk l w _ G I) as (w' & -> & I'). cbn [obind fst snd].
+  destruct (wb_into_inner_inv w' _ I') as (b & -> & C & _). cbn [obind]. rewrite C, sum_len_concat. reflexivity.
+Qed.
+
+(** ---- BytesCow: both representations, chains of edits ---- *)
+Definition fits_bytes (body rep : bytes) : Prop :=
+  2 * N.of_nat (length body) + N.of_nat (length rep) <= u64_max.
+
+Lemma wf_len b : wf b -> b_len b = length (contents b).
+Proof. intros W. unfold contents. symmetry. apply firstn_len_le. exact W. Qed.
+
+Lemma cow_ref_mut_wf junk c :
+  cow_wf c -> wf (cow_ref_mut junk c) /\ contents (cow_ref_mut junk c) = cow_bytes c.
+Proof. destruct c as [d|b]; cbn [cow_wf cow_ref_mut cow_bytes]; intros W; [apply bm_of_wf|auto]. Qed.
+
+Lemma cow_replace_c_total grow junk checked c s e rep :
+  grow_ok grow -> cow_wf c -> fits_bytes (cow_bytes c) rep ->
+  if e <=? N.of_nat (length (cow_bytes c)) then
+    exists c', cow_replace_c grow junk checked c s e rep = Ok c' /\ cow_wf c' /\
+               cow_bytes c' = splice (N.to_nat (N.min s e)) (N.to_nat e) rep (cow_bytes c)
+  else cow_replace_c grow junk checked c s e rep = Panic.
+Proof.
+  intros G W Fit. destruct (cow_ref_mut_wf junk c W) as [Wb Cb].
+  assert (L : b_len (cow_ref_mut junk c) = length (cow_bytes c)) by (rewrite <- Cb; apply wf_len; exact Wb).
+  assert (Fb : fits (cow_ref_mut junk c) rep) by (unfold fits, fits_bytes in *; rewrite L; exact Fit).
+  pose proof (replace_total grow junk checked _ s e rep G Wb Fb) as T. rewrite L in T.
+  unfold cow_replace_c.
+  destruct (e <=? N.of_nat (length (cow_bytes c))).
+  - destruct T as (b' & -> & W' & C'). cbn [obind]. exists (CMut b'). rewrite <- Cb. auto.
+  - rewrite T. reflexivity.
+Qed.
+
+(** every step of the chain fits in memory *)
+Fixpoint fits_edits (body : bytes) (es : list edit) : Prop :=
+  match es with
+  | [] => True
+  | (s, e, rep) :: r =>
+      fits_bytes body rep /\
+      (e <= N.of_nat (length body) -> fits_edits (splice (N.to_nat (N.min s e)) (N.to_nat e) rep body) r)
+  end.
+
+Lemma cow_edits_spec grow junk checked es : forall c,
+  grow_ok grow -> cow_wf c -> fits_edits (cow_bytes c) es ->
+  match splice_edits (cow_bytes c) es with
+  | Ok d => exists c', cow_edits grow junk checked c es = Ok c' /\ cow_wf c' /\ cow_bytes c' = d
+  | Panic => cow_edits grow junk checked c es = Panic
+  | Err _ => False
+  end.
+Proof.
+  induction es as [|[[s e] rep] r IH]; intros c G W Fit; cbn [splice_edits cow_edits].
+  - exists c. auto.
+  - destruct Fit as [F1 F2].
+    pose proof (cow_replace_c_total grow junk checked c s e rep G W F1) as T.
+    destruct (N.leb_spec e (N.of_nat (length (cow_bytes c)))) as [Hin|Hout].
+    + destruct T as (c1 & -> & W1 & C1). cbn [obind]. rewrite <- C1. apply IH; auto.
+      rewrite C1. apply F2. exact Hin.
+    + rewrite T. reflexivity.
+Qed.
+
+(** ---- the file functions: the buffers are transparent, the cache only ever holds what a file held ---- *)
+Definition content_of (fs : fsys) (p : N) : option bytes :=
+  match alookup p fs with
+  | None => None
+  | Some n => match pre_fail (fn_stream n) with (d, None) => Some d | (_, Some _) => None end
+  end.
+
+Lemma fs_content_eq fs p : fs_content fs p = Ok (content_of fs p).
+Proof. reflexivity. Qed.
+
+Definition fs_small (fs : fsys) : Prop :=
+  forall p n, alookup p fs = Some n -> N.of_nat (stream_len (fn_stream n)) < u64_max.
+Definition op_small (op : fop) : Prop :=
+  match op with FWrite _ cs _ => N.of_nat (stream_len cs) < u64_max | _ => True end.
+
+Lemma fs_read_content grow junk fs p :
+  grow_ok grow -> fs_small fs -> fs_read grow junk fs p = fs_content fs p.
+Proof.
+  intros G S. unfold fs_read, fs_content. destruct (alookup p fs) as [n|] eqn:E; [|reflexivity].
+  rewrite read_file_spec by (auto; eapply S; exact E).
+  destruct (pre_fail (fn_stream n)) as [d [e|]]; reflexivity.
+Qed.
+
+Lemma alookup_remove p q (fs : fsys) v :
+  alookup q (fs_remove p fs) = Some v -> alookup q fs = Some v.
+Proof.
+  induction fs as [|[k w] r IH]; cbn [fs_remove alookup]; [auto|].
+  destruct (N.eqb_spec p k) as [->|Hpk].
+  - intros H. specialize (IH H). destruct (N.eqb_spec q k) as [->|]; [|exact IH].
+    exfalso. clear IH. revert H. induction r as [|[k' w'] r' IH']; cbn [fs_remove alookup]; [discriminate|].
+    destruct (N.eqb_spec k k') as [->|Hk]; [exact IH'|]. cbn [alookup].
+    destruct (N.eqb_spec k k'); [contradiction|exact IH'].
+  - cbn [alookup]. destruct (q =? k); auto.
+Qed.
+
+Lemma fc_read_ext r1 r2 now v fs p cache :
+  r1 fs p = r2 fs p -> fc_read r1 now v fs p cache = fc_read r2 now v fs p cache.
+Proof. intros E. unfold fc_read. rewrite E. reflexivity. Qed.
+
+(** files_transparent: whatever the history, reading through [read_to_end_or_max] into a
+    [BytesMut] gives the answers that reading the content directly gives *)
+Lemma files_run_transparent grow junk now ops : forall fs c,
+  grow_ok grow -> fs_small fs -> Forall op_small ops ->
+  files_run (fs_read grow junk) now fs c ops = files_run fs_content now fs c ops.
+Proof.
+  induction ops as [|op r IH]; intros fs c G S Hs; [reflexivity|].
+  inversion Hs as [|? ? Hop Hr]; subst. destruct op as [p cs m|p|v p cached]; cbn [files_run].
+  - apply IH; auto. intros q n. cbn [alookup]. destruct (q =? p); [|apply S].
+    intros H. injection H as <-. exact Hop.
+  - apply IH; auto. intros q n H. eapply S. eapply alookup_remove. exact H.
+  - rewrite (fc_read_ext (fs_read grow junk) fs_content) by (apply fs_read_content; auto).
+    destruct (fc_read fs_content now v fs p (if cached then Some c else None)) as [a| |]; cbn [obind]; try reflexivity.
+    rewrite IH by auto. reflexivity.
+Qed.
+
+(** one call: a cached entry answers whatever the file system holds now ... *)
+Lemma fc_read_hit reader now v fs p c opt :
+  alookup p c = Some opt ->
+  fc_read reader now v fs p (Some c) =
+  Ok (match opt with
+      | None => None
+      | Some (m, d) => Some (d, match v with VCachedMtime => Some m | _ => None end)
+      end, Some c).
+Proof. intros H. unfold fc_read. rewrite H. reflexivity. Qed.
+
+(** ... with no cache the answer is the file as it is now ... *)
+Lemma fc_read_uncached now v fs p :
+  fc_read fs_content now v fs p None =
+  Ok (match content_of fs p with
+      | None => None
+      | Some d => match v with
+                  | VCachedMtime => match fs_stat fs p with Some m => Some (d, Some m) | None => None end
+                  | _ => Some (d, None)
+                  end
+      end, None).
+Proof.
+  unfold fc_read. rewrite fs_content_eq. cbn [obind].
+  destruct v, (content_of fs p); reflexivity.
+Qed.
+
+Lemma content_stat fs p d : content_of fs p = Some d -> exists m, fs_stat fs p = Some m.
+Proof. unfold content_of, fs_stat. destruct (alookup p fs) as [n|]; [eexists; reflexivity|discriminate]. Qed.
+
+(** ... and a miss of [file_cached] / [file_cached_with_mtime] answers with the file as it is
+    now and remembers exactly that: [None] is cached exactly when the file could not be read. *)
+Lemma fc_read_miss now v fs p c :
+  alookup p c = None -> v <> VFile ->
+  exists m0,
+  fc_read fs_content now v fs p (Some c) =
+  Ok (match content_of fs p with
+      | None => (None, Some ((p, None) :: c))
+      | Some d => (Some (d, match v with VCachedMtime => Some m0 | _ => None end), Some ((p, Some (m0, d)) :: c))
+      end) /\ (forall d, content_of fs p = Some d -> fs_stat fs p = Some m0).
+Proof.
+  intros H Hv. unfold fc_read. rewrite H, fs_content_eq. cbn [obind].
+  destruct (content_of fs p) as [d|] eqn:Ec.
+  - destruct (content_stat fs p d Ec) as [m Hm]. exists m. rewrite Hm.
+    destruct v; [contradiction| |]; split; auto; intros d' Hd; exact Hm.
+  - exists 0. destruct v; [contradiction| |]; split; auto; discriminate.
+Qed.
+
+(** histories: every answer is what the file held (bytes and modification time) at some
+    moment up to the read -- at the moment of the read when no cache is passed *)
+Definition cache_sound (past : list fsys) (c : fcache) : Prop :=
+  forall p opt, alookup p c = Some opt -> exists fs, In fs past /\
+    match opt with
+    | Some (m, d) => content_of fs p = Some d /\ fs_stat fs p = Some m
+    | None => content_of fs p = None
+    end.
+
+Definition answer_from (states : list fsys) (p : N) (a : fres) : Prop :=
+  exists fs, In fs states /\
+    match a with
+    | Some (d, om) => content_of fs p = Some d /\ (forall m, om = Some m -> fs_stat fs p = Some m)
+    | None => content_of fs p = None
+    end.
+
+Fixpoint answers_ok (past : list fsys) (fs : fsys) (ops : list fop) (rs : list fres) : Prop :=
+  match ops with
+  | [] => rs = []
+  | FWrite p cs m :: r => answers_ok (fs :: past) ((p, mkfnode cs m) :: fs) r rs
+  | FRemove p :: r => answers_ok (fs :: past) (fs_remove p fs) r rs
+  | FRead v p cached :: r =>
+      match rs with
+      | a :: rs' => answer_from (if cached then fs :: past else [fs]) p a /\ answers_ok past fs r rs'
+      | [] => False
+      end
+  end.
+
+Lemma cache_sound_more past past' c : incl past past' -> cache_sound past c -> cache_sound past' c.
+Proof. intros I S p opt H. destruct (S p opt H) as (fs & Hi & Hc). exists fs. split; [apply I; exact Hi|exact Hc]. Qed.
+
+Lemma fc_read_sound now v fs p (cached : bool) c past a c' :
+  cache_sound (fs :: past) c ->
+  fc_read fs_content now v fs p (if cached then Some c else None) = Ok (a, c') ->
+  answer_from (if cached then fs :: past else [fs]) p a /\
+  cache_sound (fs :: past) (match c' with Some c1 => c1 | None => c end).
+Proof.
+  intros S E. destruct cached; cbv iota in E |- *.
+  - destruct (alookup p c) as [opt|] eqn:El.
+    + rewrite (fc_read_hit _ _ _ _ _ _ _ El) in E. injection E as <- <-. split; [|exact S].
+      destruct (S p opt El) as (fs' & Hi & Hc). exists fs'. split; [exact Hi|].
+      destruct opt as [[m d]|]; [|exact Hc]. destruct Hc as [Hc Hm]. split; [exact Hc|].
+      intros m0 Hm0. destruct v; try discriminate. injection Hm0 as <-. exact Hm.
+    + destruct v.
+      * (* file(): a miss reads and does not fill *)
+        unfold fc_read in E. rewrite El, fs_content_eq in E. cbn [obind] in E. injection E as <- <-.
+        split; [|exact S]. exists fs. split; [left; reflexivity|].
+        destruct (content_of fs p); cbn [option_map]; [split; [reflexivity|discriminate]|reflexivity].
+      * destruct (fc_read_miss now VCached fs p c El ltac:(discriminate)) as (m0 & E' & Hm0).
+        pose proof (eq_trans (eq_sym E') E) as E2. clear E E'.
+        destruct (content_of fs p) as [d|] eqn:Ec; injection E2 as <- <-.
+        -- split.
+           ++ exists fs. split; [left; reflexivity|]. split; [exact Ec|discriminate].
+           ++ intros q opt. cbn [alookup]. destruct (N.eqb_spec q p) as [->|]; [|apply S].
+              intros H. injection H as <-. exists fs. split; [left; reflexivity|].
+              split; [exact Ec|apply (Hm0 d); first [exact Ec|reflexivity]].
+        -- split.
+           ++ exists fs. split; [left; reflexivity|exact Ec].
+           ++ intros q opt. cbn [alookup]. destruct (N.eqb_spec q p) as [->|]; [|apply S].
+              intros H. injection H as <-. exists fs. split; [left; reflexivity|exact Ec].
+      * destruct (fc_read_miss now VCachedMtime fs p c El ltac:(discriminate)) as (m0 & E' & Hm0).
+        pose proof (eq_trans (eq_sym E') E) as E2. clear E E'.
+        destruct (content_of fs p) as [d|] eqn:Ec; injection E2 as <- <-.
+        -- split.
+           ++ exists fs. split; [left; reflexivity|]. split; [exact Ec|].
+              intros m Hm. injection Hm as <-. apply (Hm0 d); first [exact Ec|reflexivity].
+           ++ intros q opt. cbn [alookup]. destruct (N.eqb_spec q p) as [->|]; [|apply S].
+              intros H. injection H as <-. exists fs. split; [left; reflexivity|].
+              split; [exact Ec|apply (Hm0 d); first [exact Ec|reflexivity]].
+        -- split.
+           ++ exists fs. split; [left; reflexivity|exact Ec].
+           ++ intros q opt. cbn [alookup]. destruct (N.eqb_spec q p) as [->|]; [|apply S].
+              intros H. injection H as <-. exists fs. split; [left; reflexivity|exact Ec].
+  - rewrite fc_read_uncached in E. injection E as <- <-. split; [|exact S].
+    exists fs. split; [left; reflexivity|].
+    destruct (content_of fs p) as [d|] eqn:Ec; [|reflexivity].
+    destruct v; try (split; [reflexivity|discriminate]).
+    destruct (content_stat fs p d Ec) as [m Hm]. rewrite Hm. split; [reflexivity|].
+    intros m1 H1. injection H1 as <-. first [exact Hm|reflexivity].
+Qed.
+
+Lemma files_answers_sound now ops : forall past fs c rs,
+  cache_sound (fs :: past) c ->
+  files_run fs_content now fs c ops = Ok rs -> answers_ok past fs ops rs.
+Proof.
+  induction ops as [|op r IH]; intros past fs c rs S E.
+  - cbn in E. injection E as <-. reflexivity.
+  - destruct op as [p cs m|p|v p cached]; cbn [files_run answers_ok] in *.
+    + eapply IH; [|exact E]. eapply cache_sound_more; [|exact S]. intros x Hx. right. exact Hx.
+    + eapply IH; [|exact E]. eapply cache_sound_more; [|exact S]. intros x Hx. right. exact Hx.
+    + destruct (fc_read fs_content now v fs p (if cached then Some c else None)) as [[a c']| |] eqn:Ef;
+        cbn [obind fst snd] in E; try discriminate.
+      destruct (fc_read_sound now v fs p cached c past a c' S Ef) as [Ha Sc].
+      destruct (files_run fs_content now fs (match c' with Some c1 => c1 | None => c end) r) as [rs'| |] eqn:Er;
+        cbn [obind] in E; try discriminate.
+      injection E as <-. split; [exact Ha|]. eapply IH; [exact Sc|exact Er].
+Qed.
+
+(** the two together, for the model of the real functions and from the empty state *)
+Lemma files_history_spec grow junk now ops rs :
+  grow_ok grow -> Forall op_small ops ->
+  files_run (fs_read grow junk) now [] [] ops = Ok rs -> answers_ok [] [] ops rs.
+Proof.
+  intros G Hs E. rewrite files_run_transparent in E; auto.
+  - eapply files_answers_sound; [|exact E]. intros p opt H. discriminate.
+  - intros p n H. discriminate.
+Qed.
+
+(** nothing in a history makes the model panic or fail *)
+Lemma files_run_total now ops : forall fs c, exists rs, files_run fs_content now fs c ops = Ok rs.
+Proof.
+  induction ops as [|op r IH]; intros fs c; [eexists; reflexivity|].
+  destruct op as [p cs m|p|v p cached]; cbn [files_run]; try apply IH.
+  assert (H : exists a, fc_read fs_content now v fs p (if cached then Some c else None) = Ok a).
+  { unfold fc_read. rewrite fs_content_eq. cbn [obind].
+    destruct (match (if cached then Some c else None) with Some c0 => alookup p c0 | None => None end); [eexists; reflexivity|].
+    destruct v, (if cached then Some c else None), (content_of fs p); try (eexists; reflexivity);
+      destruct (fs_stat fs p); eexists; reflexivity. }
+  destruct H as [a ->]. cbn [obind].
+  destruct (IH fs (match snd a with Some c' => c' | None => c end)) as [rs ->]. eexists; reflexivity.
+Qed.
